@@ -95,9 +95,10 @@ form("op%.Ts", "tr", "Z", "i16", "i16"); form("op%.d", "tr", "Z", "d53", "i64")
 form("w%I.i", "tr", "i32", "Z"); form("w%I.l", "tr", "i64", "Z"); form("w%I.u", "tr", "u32", "Z"); form("w%I.ul", "tr", "u64", "Z")
 form("dom.isDivisor", "isdiv")
 
-# Sites where the unchanged tree is known to be wrong.  The model holds the body as it is AND the body after
-# the proposed repair ("<form>!fixed"); the implementation must agree with one of the two on every case.
-DEFECT = {
+# Site / input-class strings of the call forms that have (had) an entry in known_findings.json: the strings are
+# the keys of those entries, so they stay as they were recorded.  Every other form gets "Integer::<form>" and
+# the sign class of (n, d).
+SITES = {
     "trem.w": ("Integer::trem(n,uint64_t)->uint64_t", lambda n, d: "d-does-not-divide-n" if n % d else "d-divides-n"),
     "crem.w": ("Integer::crem(n,uint64_t)->uint64_t", lambda n, d: "d-does-not-divide-n" if n % d else "d-divides-n"),
     "divmod.l": ("Integer::divmod(q,int64_t&,n,int64_t)", lambda n, d: "d<0" if d < 0 else "d>0"),
@@ -108,8 +109,8 @@ DEFECT = {
 }
 
 def site_of(f, n, d):
-    if f in DEFECT:
-        s, k = DEFECT[f]
+    if f in SITES:
+        s, k = SITES[f]
         return s, k(n, d)
     if f.startswith("dom."):
         site = "IntegerDom::" + f[4:]
@@ -292,33 +293,13 @@ def main(tier, replay=None):
     if rc != 0 or len(iout) != len(cases):
         chk.broke("implementation harness failed (rc=%s, %d/%d lines)" % (rc, len(iout), len(cases)), ierr)
         return chk.finish()
-    mout = mfix = None
+    mout = None
     if drv:
         rc, mout, merr = vf.run_lines(drv, impl_in, timeout=1500)
         if rc != 0 or len(mout) != len(cases):
             chk.broke("model driver failed (rc=%s, %d/%d lines)" % (rc, len(mout), len(cases)), merr)
             mout = None
-        dcases = [(i, c) for i, c in enumerate(cases) if c[0] in DEFECT]
-        rc, fo, merr = vf.run_lines(drv, "".join("%s!fixed %d %d\n" % (c[0], c[1], c[2]) for i, c in dcases), timeout=1500)
-        if rc != 0 or len(fo) != len(dcases):
-            chk.broke("model driver failed on the repaired-body forms (rc=%s)" % rc, merr)
-        else:
-            mfix = {i: fo[j] for j, (i, c) in enumerate(dcases)}
-    # 4. comparison
-    # 4a. which of the two modelled bodies does the implementation follow at each defect site?
-    state = {}
-    if mout is not None and mfix is not None:
-        for f in DEFECT:
-            idx = [i for i, c in enumerate(cases) if c[0] == f]
-            if not idx:
-                continue
-            asis = all(norm(iout[i]) == norm(mout[i]) for i in idx)
-            fixd = all(norm(iout[i]) == norm(mfix[i]) for i in idx)
-            differ = any(norm(mout[i]) != norm(mfix[i]) for i in idx)
-            if not differ and not replay:
-                chk.broke("generator produced no case separating the two modelled bodies of %s" % f)
-            state[f] = "repaired" if (fixd and differ) else ("as-is" if asis else ("repaired" if fixd else "neither"))
-    chk.cov["defect_sites_body_followed"] = {DEFECT[f][0]: s for f, s in sorted(state.items())}
+    # 4. comparison: implementation vs oracle decides violations; implementation vs extracted model is the tie
     ncorr = 0
     nunspec = 0
     dist_form, dist_class, dist_sign = {}, {}, {}
@@ -342,21 +323,13 @@ def main(tier, replay=None):
         if specified and got != exps:
             chk.fail_input(site, klass, {"form": f, "n": str(n), "d": str(d)}, exps, iout[i],
                            "implementation differs from the documented convention (%s)" % kind)
+            continue                   # a failing input is reported once, not again as a correspondence break
         if mout is not None:
             ncorr += 1
             mg = norm(mout[i])
-            if f in DEFECT and mfix is not None:
-                st = state.get(f)
-                mfx = norm(mfix[i])
-                if specified and mfx != exps:
-                    chk.broke("model of the repaired body differs from the specification oracle on %s n=%d d=%d: model=%s spec=%s" % (f, n, d, mfix[i], exps))
-                if st == "neither" and got != mg and got != mfx:
-                    chk.broke("correspondence: %s follows neither the modelled body nor the repaired one on n=%d d=%d: impl=%s model=%s repaired=%s"
-                              % (f, n, d, iout[i], mout[i], mfix[i]))
-                continue
             if mg != got:
                 chk.broke("correspondence model/implementation differs on %s n=%d d=%d: model=%s impl=%s" % (f, n, d, mout[i], iout[i]))
-            if specified and mg != exps:
+            elif specified and mg != exps:
                 chk.broke("extracted model differs from the specification oracle on %s n=%d d=%d: model=%s spec=%s" % (f, n, d, mout[i], exps))
     if len(chk.broken) > 20:
         chk.broken = chk.broken[:20] + [{"what": "... %d more" % (len(chk.broken) - 20), "detail": ""}]
